@@ -24,10 +24,13 @@
 (*  - the code-shaped rules (actions): what gemseo does, to be matched by the  *)
 (*    real Database and real files on every transition (harness: ImplShape);   *)
 (*  - what a maintainer expects of them (ExportSucceeds, FilesLoadable,        *)
-(*    FileIsLastExport, NoForeignOutputs, NamesAligned, AppendEqualsFull).     *)
-(*    TLC refutes these on the code-shaped rules; the harness replays the      *)
-(*    counterexamples on the real code.  With no maintenance operation and one *)
-(*    file they hold and the module refines HDFStoreImpl (Base!Spec).          *)
+(*    FileIsLastExport = NoMissingData + NoStaleData + the order of points,    *)
+(*    NoForeignOutputs, NamesAligned, AppendEqualsFull).  TLC refutes these on *)
+(*    the code-shaped rules (the verdict on every state is in `viol`); the     *)
+(*    harness replays the counterexamples on the real code.  With no           *)
+(*    maintenance operation and one file they hold and the module refines      *)
+(*    HDFStoreImpl (RefinesBase); a full export always repairs the file        *)
+(*    (FullExportRepairs holds).                                               *)
 EXTENDS Integers, Sequences, FiniteSets, TLC
 CONSTANTS NKeys, Names, Scalars, Size1s, Vectors, Matrices,
           Files,        \* the files exported to, e.g. {"A", "B"}
@@ -41,14 +44,15 @@ VARIABLES db,           \* Database.__data: sequence of [key, outs] (as in HDFSt
           pending,      \* HDFDatabase.__pending_arrays: sequence of keys, in insertion order
           files,        \* file id -> layout (as HDFStoreImpl!file: index -> [x, k, v, arr])
           ex,           \* file id -> the file exists
-          good,         \* file id -> the file loads to the content the database had at its last completed
-                        \* export to it.  (files[f] and that content change together, at the exports to f
-                        \* only: the comparison is made once, there, instead of carrying the snapshot in
-                        \* the state; an export that raises must leave the file as it was.)
+          diff,         \* file id -> in what the file, once loaded, differs from the content the database
+                        \* had at its last completed export to it ({}: in nothing).  (files[f] and that
+                        \* content change together, at the exports to f only: the comparison is made once,
+                        \* there, instead of carrying the snapshot in the state; an export that raises
+                        \* must leave the file as it was.)
           out,          \* the outcome of the last step: "none" or the exception to_file raised
           obs,          \* derived: file id -> what a loader gets (ok, db); a function of files
           viol          \* derived: the expectations that the state breaks; a function of the rest
-vars == <<db, used, nm, pending, files, ex, good, out, obs, viol>>
+vars == <<db, used, nm, pending, files, ex, diff, out, obs, viol>>
 
 AllMaintOps == {"RemoveEmptyEntries", "ClearFromIteration", "Filter", "Delete", "Clear"}
 ASSUME MaintOps \subseteq AllMaintOps /\ Restore \in BOOLEAN /\ MaxMaint \in Nat /\ Files # {}
@@ -141,25 +145,36 @@ DecodedEntries(f) == {K!Decode(f[i]) : i \in {j \in DOMAIN f : K!DecodeOK(f[j])}
 Foreign(f) == \E e \in DecodedEntries(f) : \E n \in NamesOf(e) : OwnerOf(e.outs[n].val) # e.key
 Misnamed(f) == \E e \in DecodedEntries(f) : \E n \in NamesOf(e) :
                    OwnerOf(e.outs[n].val) = e.key /\ e.outs[n] # K!Abs!Out(e.key, n)
-Verdict(fl, e, gd, o) ==
+\* l covers d: every point of d is in l with at least the outputs it has in d, and the same values
+Covers(l, d) == \A i \in DOMAIN d : \E j \in DOMAIN l :
+                   /\ l[j].key = d[i].key
+                   /\ \A n \in NamesOf(d[i]) : n \in NamesOf(l[j]) /\ l[j].outs[n] = d[i].outs[n]
+\* the file layout l against the content d of the database that was exported to it
+DiffKinds == {"MissingData", "StaleData", "Reordered", "PartialWrite"}
+Compare(l, d) ==
+  IF ~Loadable(l) THEN {}                                          \* reported as Unloadable
+  ELSE (IF Covers(Load(l), d) THEN {} ELSE {"MissingData"})        \* something of the database is not in the file
+       \cup (IF Covers(d, Load(l)) THEN {} ELSE {"StaleData"})     \* the file has what the database had not
+       \cup (IF Covers(Load(l), d) /\ Covers(d, Load(l)) /\ Load(l) # d THEN {"Reordered"} ELSE {})
+Verdict(fl, e, df, o) ==
   (IF o # "none" THEN {"ExportRaises"} ELSE {})
   \cup (IF \E g \in Files : e[g] /\ ~Loadable(fl[g]) THEN {"Unloadable"} ELSE {})
-  \cup (IF \E g \in Files : e[g] /\ Loadable(fl[g]) /\ ~gd[g] THEN {"NotLastExport"} ELSE {})
+  \cup UNION {df[g] : g \in {h \in Files : e[h] /\ Loadable(fl[h])}}
   \cup (IF \E g \in Files : Foreign(fl[g]) THEN {"ForeignOutputs"} ELSE {})
   \cup (IF \E g \in Files : Misnamed(fl[g]) THEN {"MisnamedOutputs"} ELSE {})
 \* the derived variables after a step that leaves the files alone / after an export to f (DerivedOK)
 QuietDerived == obs' = obs /\ viol' = viol \ {"ExportRaises"}
 ExportDerived(f) == /\ obs' = [obs EXCEPT ![f] = ObserveOne(files'[f])]
-                    /\ viol' = Verdict(files', ex', good', out')
+                    /\ viol' = Verdict(files', ex', diff', out')
 
 \* ------------------------------------------------------------------ actions
 Init == /\ db = <<>> /\ used = 0 /\ nm = 0 /\ pending = <<>>
         /\ files = [f \in Files |-> <<>>] /\ ex = [f \in Files |-> FALSE]
-        /\ good = [f \in Files |-> TRUE] /\ out = "none"
+        /\ diff = [f \in Files |-> {}] /\ out = "none"
         /\ obs = Observe(files) /\ viol = {}
 
 Touch(key) == IF InSeq(pending, key) THEN pending ELSE Append(pending, key)     \* add_pending_array
-Quiet == UNCHANGED <<files, ex, good>> /\ out' = "none" /\ QuietDerived
+Quiet == UNCHANGED <<files, ex, diff>> /\ out' = "none" /\ QuietDerived
 
 \* Database.store(x_new, {names}): a point never stored, or (Restore) one that was removed
 Store(key, names) ==
@@ -214,8 +229,8 @@ ExportTo(f, append) ==
        /\ files' = [files EXCEPT ![f] = w.file]
        /\ out' = w.err
        /\ pending' = IF w.err = "none" THEN <<>> ELSE pending     \* __pending_arrays.clear(), last line
-       /\ good' = [good EXCEPT ![f] = IF w.err = "none" THEN Loadable(w.file) /\ Load(w.file) = db
-                                      ELSE @ /\ w.file = files[f]]
+       /\ diff' = [diff EXCEPT ![f] = IF w.err = "none" THEN Compare(w.file, db)
+                                      ELSE @ \cup (IF w.file = files[f] THEN {} ELSE {"PartialWrite"})]
   /\ ex' = [ex EXCEPT ![f] = TRUE]
   /\ UNCHANGED <<db, used, nm>>
   /\ ExportDerived(f)
@@ -241,20 +256,28 @@ TypeOK == /\ Len(db) <= NKeys /\ \A i \in DOMAIN db : K!Abs!EntryOK(db[i])
           /\ K!NoDup(pending) /\ \A i \in 1..Len(pending) : pending[i] \in 1..used
           /\ \A f \in Files : /\ DOMAIN files[f] \subseteq 1..NKeys
                               /\ \A i \in DOMAIN files[f] : FileEntryOK(files[f][i]) /\ K!NoDup(files[f][i].k)
-                              /\ ex[f] \in BOOLEAN /\ good[f] \in BOOLEAN /\ (~ex[f] => files[f] = <<>> /\ good[f])
+                              /\ ex[f] \in BOOLEAN /\ diff[f] \subseteq DiffKinds /\ (~ex[f] => files[f] = <<>> /\ diff[f] = {})
           /\ out \in {"none", "KeyError", "ValueError"}
           /\ nm \in Nat /\ (MaxMaint > 0 => nm <= MaxMaint)
-DerivedOK == obs = Observe(files) /\ viol = Verdict(files, ex, good, out)
+DerivedOK == obs = Observe(files) /\ viol = Verdict(files, ex, diff, out)
 \* the writer of a fresh entry is HDFStoreImpl's, and a full export decodes to the database
 NewEntryAgrees == \A i \in DOMAIN db : NewEntry(db[i]) = K!NewEntry(db[i])
 FullDecodes == Loadable(FullLayout(db)) /\ Load(FullLayout(db)) = db
 \* an export that raised keeps the buffer; one that completed emptied it
 BufferRule == (out # "none") => pending # <<>>
 
+\* the way out that the rules do give: a full export (append = False) never raises and leaves exactly the
+\* database in the file, whatever happened before
+FullExportRepairs ==
+  [][\A f \in Files : ExportTo(f, FALSE)
+        => (out' = "none" /\ pending' = <<>> /\ Loadable(files'[f]) /\ Load(files'[f]) = db' /\ diff'[f] = {})]_vars
+
 \* what the maintainers expect (refuted by TLC on the rules above, except in the base configuration)
 ExportSucceeds == out = "none"
 FilesLoadable == \A f \in Files : ex[f] => Loadable(files[f])
-FileIsLastExport == \A f \in Files : (ex[f] /\ Loadable(files[f])) => good[f]
+FileIsLastExport == \A f \in Files : (ex[f] /\ Loadable(files[f])) => diff[f] = {}
+NoMissingData == \A f \in Files : (ex[f] /\ Loadable(files[f])) => "MissingData" \notin diff[f]
+NoStaleData == \A f \in Files : (ex[f] /\ Loadable(files[f])) => "StaleData" \notin diff[f]
 NoForeignOutputs == \A f \in Files : ~Foreign(files[f])
 NamesAligned == \A f \in Files : ~Misnamed(files[f])
 Expected == viol = {}
